@@ -1247,6 +1247,46 @@ def single_vs_batched(ctx, case, name, dtype, op, X, a, Z, stride=1):
     return True
 
 
+def corpus_block(ctx: Ctx, pend, name, dtype, gr, ar, tag="corner", grads=(None, "X", "a", "both")):
+    """every group row x every tangent row in ONE mixed-regime batched call per op: model, single-item call, laws, exact oracles"""
+    P = U.pp()
+    Xr = U.to_dtype_exact([r[0] for r in gr], dtype)[1].tolist()
+    Ar = U.to_dtype_exact([r[0] for r in ar], dtype)[1].tolist()
+    base = {"stream": "corpus", "type": name, "dtype": dtype, "shape_X": [len(Xr), 1], "shape_a": [len(Ar)], "X": Xr, "a": Ar,
+            "tags": [tag], "id": 1}
+    for op in ("Adj", "AdjT", "Retr", "add", "Jinvp"):
+        case = dict(base, op=op, a_lt=(op != "add"))
+        if ctx.quick and op in ("AdjT", "add"):
+            case["a"], case["shape_a"] = Ar[::2], [len(Ar[::2])]
+        if op == "add":
+            case.update(api="+", extra=0, alpha=1.0)
+        pend += prepare(ctx, case)
+        ctx.note_case(("corpus", tag, op, name, dtype), True)
+        ctx.count(f"corpus.{op}.{name}.{dtype}", len(Xr) * len(Ar))
+        try:
+            T = tensors_of(case)
+            X, a = T["X"], T["a"]
+            aL = a if isinstance(a, P.LieTensor) else P.LieTensor(a, ltype=getattr(P, U.ALG[name] + "_type"))
+            Z = {"Adj": lambda: X.Adj(aL), "AdjT": lambda: X.AdjT(aL), "Retr": lambda: X.Retr(aL), "add": lambda: X + a,
+                 "Jinvp": lambda: X.Jinvp(aL)}[op]()
+            single_vs_batched(ctx, case, name, dtype, op, X, aL, Z, stride=(5 if ctx.quick else 1))
+        except Exception as ex:
+            ctx.fail(case, f"raises: corpus {op} on {name} {dtype} raised {type(ex).__name__}: {str(ex)[:160]}")
+    for gm in grads:
+        law_case(ctx, {"stream": "laws", "type": name, "dtype": dtype, "shape_X": [len(Xr), 1], "shape_a": [len(Ar)], "X": Xr, "a": Ar, "grad": gm})
+    for i, x in enumerate(Xr):   # exact adjoint oracle on a fixed pairing (three tangent rows per group row)
+        for j in (((5 * i) % len(Ar),) if ctx.quick else ((5 * i) % len(Ar), (5 * i + 4) % len(Ar), (5 * i + 8) % len(Ar))):
+            for op in ("Adj", "AdjT"):
+                adj_oracle_case(ctx, {"stream": "adj", "type": name, "dtype": dtype, "op": op, "X": x, "a": Ar[j]})
+                ctx.count(f"corpus.adj-exact.{name}")
+    for i, x in enumerate(Xr):   # exact Jinvp oracle on a fixed pairing
+        q = x[U.QSL[name]]
+        if 2 * math.atan2(n2(q[:3]), abs(q[3])) > 3.1:
+            continue
+        jinvp_oracle_case(ctx, {"stream": "jinvp", "type": name, "dtype": dtype, "X": x, "p": Ar[(3 * i + 1) % len(Ar)], "fd": False})
+        ctx.note_case(("corpus-jinvp", tag, name, dtype, i), True)
+
+
 def run_corpus(ctx: Ctx):
     """deterministic corner corpus: every group row x every tangent row in ONE mixed-regime batched call per op, compared
     item-wise with the model, with the single-item call, and through the laws / exact oracles"""
@@ -1257,41 +1297,7 @@ def run_corpus(ctx: Ctx):
             gr, ar = corner_group_rows(name, dtype), corner_alg_rows(name, dtype)
             if ctx.quick and dtype == "float32":      # quick tier: every other corner for the second dtype (the full grid runs in float64)
                 gr, ar = gr[::2], ar[1::2]
-            Xr = U.to_dtype_exact([r[0] for r in gr], dtype)[1].tolist()
-            Ar = U.to_dtype_exact([r[0] for r in ar], dtype)[1].tolist()
-            base = {"stream": "corpus", "type": name, "dtype": dtype, "shape_X": [len(Xr), 1], "shape_a": [len(Ar)], "X": Xr, "a": Ar,
-                    "tags": ["corner"], "id": 1}
-            for op in ("Adj", "AdjT", "Retr", "add", "Jinvp"):
-                case = dict(base, op=op, a_lt=(op != "add"))
-                if ctx.quick and op in ("AdjT", "add"):
-                    case["a"], case["shape_a"] = Ar[::2], [len(Ar[::2])]
-                if op == "add":
-                    case.update(api="+", extra=0, alpha=1.0)
-                pend += prepare(ctx, case)
-                ctx.note_case(("corpus", op, name, dtype), True)
-                ctx.count(f"corpus.{op}.{name}.{dtype}", len(Xr) * len(Ar))
-                try:
-                    T = tensors_of(case)
-                    X, a = T["X"], T["a"]
-                    aL = a if isinstance(a, P.LieTensor) else P.LieTensor(a, ltype=getattr(P, U.ALG[name] + "_type"))
-                    Z = {"Adj": lambda: X.Adj(aL), "AdjT": lambda: X.AdjT(aL), "Retr": lambda: X.Retr(aL), "add": lambda: X + a,
-                         "Jinvp": lambda: X.Jinvp(aL)}[op]()
-                    single_vs_batched(ctx, case, name, dtype, op, X, aL, Z, stride=(5 if ctx.quick else 1))
-                except Exception as ex:
-                    ctx.fail(case, f"raises: corpus {op} on {name} {dtype} raised {type(ex).__name__}: {str(ex)[:160]}")
-            for gm in (None, "X", "a", "both"):
-                law_case(ctx, {"stream": "laws", "type": name, "dtype": dtype, "shape_X": [len(Xr), 1], "shape_a": [len(Ar)], "X": Xr, "a": Ar, "grad": gm})
-            for i, x in enumerate(Xr):   # exact adjoint oracle on a fixed pairing (three tangent rows per group row)
-                for j in (((5 * i) % len(Ar),) if ctx.quick else ((5 * i) % len(Ar), (5 * i + 4) % len(Ar), (5 * i + 8) % len(Ar))):
-                    for op in ("Adj", "AdjT"):
-                        adj_oracle_case(ctx, {"stream": "adj", "type": name, "dtype": dtype, "op": op, "X": x, "a": Ar[j]})
-                        ctx.count(f"corpus.adj-exact.{name}")
-            for i, x in enumerate(Xr):   # exact Jinvp oracle on a fixed pairing
-                q = x[U.QSL[name]]
-                if 2 * math.atan2(n2(q[:3]), abs(q[3])) > 3.1:
-                    continue
-                jinvp_oracle_case(ctx, {"stream": "jinvp", "type": name, "dtype": dtype, "X": x, "p": Ar[(3 * i + 1) % len(Ar)], "fd": False})
-                ctx.note_case(("corpus-jinvp", name, dtype, i), True)
+            corpus_block(ctx, pend, name, dtype, gr, ar)
     for dtype in ("float64", "float32"):
         rows = corner_alg_rows("SO3", dtype)
         xs = U.to_dtype_exact([r[0] for r in rows], dtype)[1].tolist()
@@ -1658,7 +1664,11 @@ def run_modes(ctx: Ctx):
 
         UserType = type("User" + type(U.ltype(name)).__name__, (type(U.ltype(name)),), {})     # a user subclass of the shipped LieType
 
-        def mk(rgX=False, rga=False, param=False, nonleaf=False, userlt=False):
+        def mk(rgX=False, rga=False, param=False, nonleaf=False, userlt=False, proplt=False):
+            if proplt:     # class 33: both ltypes are user subclasses that override the dimension attributes as properties
+                X = P.LieTensor(Xd.clone(), ltype=_proptype(U.ltype(name)))
+                a = ad.clone()
+                return X, a, P.LieTensor(a, ltype=_proptype(algT))
             X = P.LieTensor(Xd.clone(), ltype=UserType() if userlt else U.ltype(name))
             a = ad.clone()
             if param:
@@ -1709,10 +1719,11 @@ def run_modes(ctx: Ctx):
                         ("enable_grad inside no_grad, requires_grad X", dict(rgX=True), None),
                         ("default dtype float64", dict(), lambda: default_dtype(torch.float64)),
                         ("default dtype float64, requires_grad both", dict(rgX=True, rga=True), lambda: default_dtype(torch.float64)),
-                        ("user subclass of the LieType", dict(userlt=True), contextlib.nullcontext)]
+                        ("user subclass of the LieType", dict(userlt=True), contextlib.nullcontext),
+                        ("user LieType subclasses overriding dimension/embedding/manifold as properties", dict(proplt=True), contextlib.nullcontext)]
             if ctx.quick and dtype == "float32":      # quick tier: the second dtype runs the mode variants that differ most
                 variants = [v for v in variants if v[0] in ("requires_grad both", "no_grad, requires_grad both", "inference_mode, plain",
-                                                            "default dtype float64", "pp.Parameter X / nn.Parameter a")]
+                                                            "default dtype float64", "pp.Parameter X / nn.Parameter a") or v[0].startswith("user LieType subclasses")]
             for vlab, kw, cm in variants:
                 X, a, aL = mk(**kw)
                 for k2, f in sp.items():
@@ -1735,6 +1746,23 @@ def run_modes(ctx: Ctx):
                                  f"grad-mode: {k2} with operands [{vlab}] returns other VALUES than the plain call (max diff {d:.3e}) ({name}, {dtype})")
                     if hasattr(z, "ltype") != (k2 not in ("X.Jr()", "aL.Jr()", "pp.Jr(aL)")):
                         ctx.fail(case | {"mode": vlab, "op": k2}, f"grad-mode: {k2} with operands [{vlab}] returned {type(z).__name__} ({name})")
+            # class 33 with operands that carry EXTRA trailing components: the width used by + / add / add_ comes from the (overridden) property
+            Xp, ap, aLp = mk(proplt=True)
+            Xs_, as_, aLs = mk()
+            wide = torch.cat([ad, torch.full(ad.shape[:-1] + (2,), 9.0, dtype=D)], -1)
+            for lab, f in (("X+wide", lambda X, aL: X + wide), ("X.add(wide,alpha=0.5)", lambda X, aL: X.add(wide, alpha=0.5)),
+                           ("X.clone().add_(wide)", lambda X, aL: X.clone().add_(wide)), ("aL+wide", lambda X, aL: aL + wide),
+                           ("aL.clone().add_(wide)", lambda X, aL: aL.clone().add_(wide)), ("aL.add(wide,alpha=-2)", lambda X, aL: aL.add(wide, alpha=-2))):
+                ctx.note_case(("modes", name, dtype, "proplt-wide", lab), True)
+                ctx.count("modes.property-subclass, wide operand")
+                try:
+                    z1, z0 = _val(f(Xp, aLp)), _val(f(Xs_, aLs))
+                    if not _same(z1, z0):
+                        ctx.fail(case | {"mode": "property subclass", "op": lab},
+                                 f"grad-mode: {lab} (operand with 2 extra components) on LieTensors whose ltype overrides dimension/embedding/manifold as "
+                                 f"properties returns other values / shape {tuple(z1.shape)} than on the shipped ltype {tuple(z0.shape)} ({name}, {dtype})")
+                except Exception as ex:
+                    ctx.fail(case | {"mode": "property subclass", "op": lab}, f"grad-mode: {lab} on property-overriding ltype raised {type(ex).__name__}: {str(ex)[:120]} ({name}, {dtype})")
             # in-place forms where they are legal: optimizer pattern (Parameter under no_grad), inference_mode, non-leaf clone
             for vlab, kw, cm in [("Parameter under no_grad", dict(param=True), torch.no_grad), ("requires_grad X under no_grad", dict(rgX=True), torch.no_grad),
                                  ("plain under inference_mode", dict(), torch.inference_mode), ("non-leaf clone, grad enabled", dict(rgX=True, nonleaf=True), contextlib.nullcontext)]:
@@ -2066,7 +2094,7 @@ def large_call(P, name, op, Xt, at):
     raise ValueError(op)
 
 
-def large_case(ctx, name, dtype, op, sx, sa, seed, pend):
+def large_case(ctx, name, dtype, op, sx, sa, seed, pend, cuts=None, tails=()):
     """one large call: split-consistency along every full-size batch axis, single-item calls for first / last / random items, the
     model on a sample that includes the LAST item"""
     P = U.pp()
@@ -2088,7 +2116,16 @@ def large_case(ctx, name, dtype, op, sx, sa, seed, pend):
             src = Xt if op == "Jr" else at
             full = lambda lo, hi: large_call(P, name, op, Xt[lo:hi] if op == "Jr" else None, at[lo:hi] if op != "Jr" else at)
             n0 = src.shape[0]
-            for cut in sorted({1, n0 // 2, 1 << 14, n0 - 1} & set(range(1, n0))):
+            for cut in sorted(set(tails) & set(range(1, n0))):       # class 34: the LAST n - cut items alone (remainders of block-wise evaluation)
+                if op == "algadd":
+                    continue
+                zt_ = full(cut, n0)
+                if not torch.equal(Z[cut:], zt_):
+                    j = cut + int((Z[cut:] != zt_).reshape(n0 - cut, -1).any(-1).nonzero()[0])
+                    ctx.fail(case | {"cut": cut, "item": j}, f"large-tail: the last {n0 - cut} items of {op} on a batch of {n0} differ from the same call on those "
+                                                             f"items alone (first at item {j}) ({name}, {dtype})")
+                    return
+            for cut in sorted((set(cuts) if cuts is not None else {1, n0 // 2, 1 << 14, n0 - 1}) & set(range(1, n0))):
                 if op == "algadd":
                     continue      # the flip pairs items across the cut: single-item / model checks below cover it
                 z2 = torch.cat([full(0, cut), full(cut, n0)], 0)
@@ -2116,7 +2153,15 @@ def large_case(ctx, name, dtype, op, sx, sa, seed, pend):
         for ax, dimlen in enumerate(so):
             if dimlen < 2:
                 continue
-            for cut in sorted({1, dimlen // 2, 1 << 14, dimlen - 1} & set(range(1, dimlen))):
+            for cut in sorted(set(tails) & set(range(1, dimlen))) if dimlen == max(so) else []:
+                zt_ = large_call(P, name, op, cut_op(Xt, sx, ax, cut, dimlen), cut_op(at, sa, ax, cut, dimlen))
+                zz = Z.narrow(ax, cut, dimlen - cut)
+                if zt_.shape != zz.shape or not torch.equal(zz, zt_):
+                    ctx.fail(case | {"cut": cut, "axis": ax},
+                             f"large-tail: the last {dimlen - cut} items (result axis {ax}) of {op} on lshapes {sx},{sa} differ from the same call on those "
+                             f"items alone ({name}, {dtype})")
+                    return
+            for cut in sorted((set(cuts) if cuts is not None and dimlen == max(so) else {1, dimlen // 2, 1 << 14, dimlen - 1}) & set(range(1, dimlen))):
                 parts = [large_call(P, name, op, cut_op(Xt, sx, ax, 0, cut), cut_op(at, sa, ax, 0, cut)),
                          large_call(P, name, op, cut_op(Xt, sx, ax, cut, dimlen), cut_op(at, sa, ax, cut, dimlen))]
                 z2 = torch.cat(parts, ax)
@@ -2130,7 +2175,8 @@ def large_case(ctx, name, dtype, op, sx, sa, seed, pend):
         Xe = Xt.expand(so + (G,)).reshape(n, G)
         ae = at.expand(so + (A,)).reshape(n, A)
         Zf = Z.reshape(n, -1)
-        idx = sorted({0, n - 1, n - 2, (1 << 14) - 1, 1 << 14, (7919 * seed) % n, (104729 * seed) % n} & set(range(n)))
+        idx = sorted(({0, n - 1, n - 2, (1 << 14) - 1, 1 << 14, (7919 * seed) % n, (104729 * seed) % n} | {n - n % (1 << k) for k in (10, 16, 17, 18)}
+                      | {n - n % (1 << k) - 1 for k in (16, 17, 18)}) & set(range(n)))
         for i in idx:
             zi = large_call(P, name, op, Xe[i:i + 1].clone(), ae[i:i + 1].clone()).reshape(-1)
             if not torch.equal(torch.nan_to_num(zi, nan=1.2345), torch.nan_to_num(Zf[i], nan=1.2345)):
@@ -2200,6 +2246,26 @@ def run_large(ctx: Ctx):
                 plans.append((name, "float64", op, (127, 129), (129,)))
     for i, (name, dtype, op, sx, sa) in enumerate(plans):
         large_case(ctx, name, dtype, op, sx, sa, 1000 + i, pend)
+    # class 34: sizes beyond 2^17.  quick: 2^17+37 for every entry point, the tails n % 2^k (k = 5, 6..17 -> 5 and 37 items) and the last item alone;
+    # thorough: 2^18+1, 2^18+37, 2^20+1 with a full split at the 2^18 boundary and the tails
+    big = [((1 << 17) + 37, None, "float64")] if ctx.quick else [((1 << 18) + 1, 1 << 17, "float64"), ((1 << 18) + 37, 1 << 18, "float64"),
+                                                                   ((1 << 20) + 1, 1 << 18, "float64"), ((1 << 18) + 37, 1 << 18, "float32")]
+    j = 0
+    for nb, fullcut, dtype in big:
+        for name in U.GROUPS:
+            for op in LARGE_OPS:
+                if op in ("Jr", "jr") and name != "SO3":
+                    continue
+                if dtype == "float32" and op not in ("Adj", "Jinvp", "Retr"):
+                    continue
+                if ctx.quick and ((op == "add" and name != "SO3") or (op == "add_" and name != "SE3") or (op == "algadd" and name != "Sim3")
+                                  or (op == "Retr" and name not in ("SE3", "Sim3")) or (op == "AdjT" and name not in ("SO3", "RxSO3"))):
+                    continue      # quick tier: Adj and Jinvp on every group; AdjT (= Adj of the inverse) and the spellings of + (shared kernels) on a subset
+                j += 1
+                tails = sorted({nb - nb % (1 << k) for k in (5, 10, 17, 18)} | {nb - 1})
+                large_case(ctx, name, dtype, op, (nb,), (nb,), 3000 + j, pend, cuts=({fullcut} if fullcut else set()), tails=tails)
+        flush(ctx, pend)
+        pend = []
     flush(ctx, pend)
 
 
@@ -2247,6 +2313,361 @@ def run_algshort(ctx: Ctx):
             ctx.disagree("algshort", case, f"algebra {case['api']} width {case['width']} ({case['type']}, {case['dtype']}): {got} vs model {want}")
 
 
+# ----------------------------------------------------------------------------- class 32 / 29: process-wide constants poisoned by OTHER operations
+
+def _proptype(base):
+    """class 33: a user subclass of a shipped LieType that overrides dimension / embedding / manifold / on_manifold as PROPERTIES and whose
+    private buffers are None (code that reads `_manifold` instead of `manifold` breaks)"""
+    vals = (base.dimension, base.embedding, base.manifold)
+    cls = type("Prop" + type(base).__name__, (type(base),), {
+        "dimension": property(lambda self: vals[0]), "embedding": property(lambda self: vals[1]),
+        "manifold": property(lambda self: vals[2]), "on_manifold": property(lambda self: vals[0] == vals[2])})
+    o = cls()
+    o._dimension = o._embedding = o._manifold = None
+    return o
+
+
+def poison_probe(ctx: Ctx):
+    """Between two identical evaluations of every C05 operation (batched, all four groups) EVERY other public operation of the module is
+    run on degenerate shapes — a single unbatched item, lshape (1,), (1,1) — forward and backward; the second evaluation must equal the
+    first bit for bit.  A module-level constant (cached identity, zeros, ltype attribute) that some operation fills in place when
+    `.expand().contiguous()` does not copy poisons every later call of the dtype.  Must run FIRST in the process.  Deterministic.
+    Also class 29: the reads use omitted optional arguments (alpha) after calls that passed them."""
+    P = U.pp()
+    reads_all = {}
+    ops_by = {}
+    for dtype in ("float64", "float32"):
+        D = U.dt(dtype)
+        for name in U.GROUPS:
+            algT = getattr(P, U.ALG[name] + "_type")
+            Xt, at = big_operands(name, (3,), (3,), D, 7700)
+            Xt, at = Xt.clone(), at.clone()
+            Xt[0] = Xt[2]
+            at[1] = at[1] * 0 + torch.linspace(-0.4, 0.6, at.shape[-1], dtype=D)
+
+            def reads(name=name, algT=algT, Xt=Xt, at=at):
+                X = P.LieTensor(Xt.clone(), ltype=U.ltype(name))
+                aL = P.LieTensor(at.clone(), ltype=algT)
+                a = at.clone()
+                r = {"X.Adj(aL)": X.Adj(aL), "X.AdjT(a)": X.AdjT(a), "X.Jinvp(aL)": X.Jinvp(aL), "X.Retr(aL)": X.Retr(aL), "X+a": X + a,
+                     "X.add(a)": X.add(a), "X.add(a,alpha=-2)": X.add(a, alpha=-2), "X.clone().add_(a)": X.clone().add_(a),
+                     "aL+a": aL + a, "Exp(aL)@X": aL.Exp() @ X, "X.matrix()": X.matrix(), "aL.matrix()": aL.matrix(), "X.Log()": X.Log(),
+                     "X.Inv()@X": X.Inv() @ X, "X[:1].Adj(a[:1])": P.LieTensor(Xt[:1].clone(), ltype=U.ltype(name)).Adj(a[:1]),
+                     "X[0].Jinvp(a[0])": P.LieTensor(Xt[0].clone(), ltype=U.ltype(name)).Jinvp(a[0])}
+                if name == "SO3":
+                    r["X.Jr()"] = X.Jr()
+                    r["aL.Jr()"] = aL.Jr()
+                return {k2: _val(v).clone() for k2, v in r.items()}
+            reads_all[(name, dtype)] = reads
+
+            def others(name=name, algT=algT, D=D):
+                """label -> fn(lshape): one call of another public operation on a single item of that lshape"""
+                def ops(sh):
+                    Xs, as_ = big_operands(name, sh, sh, D, 7800 + len(sh))
+                    mk = lambda rg=False: P.LieTensor(Xs.clone(), ltype=U.ltype(name)).requires_grad_(rg)
+                    mka = lambda rg=False: P.LieTensor(as_.clone().requires_grad_(rg), ltype=algT)
+                    p3 = torch.linspace(-1, 2, 3, dtype=D).expand(tuple(sh) + (3,)).clone()
+                    p4 = torch.linspace(-1, 2, 4, dtype=D).expand(tuple(sh) + (4,)).clone()
+                    bw = lambda z: (z.tensor() if hasattr(z, "ltype") else z).sum().backward()
+                    o = {
+                        "Adj": lambda: mk().Adj(mka()), "AdjT": lambda: mk().AdjT(mka()), "Jinvp": lambda: mk().Jinvp(mka()),
+                        "Retr": lambda: mk().Retr(mka()), "+": lambda: mk() + as_, "add(alpha=-2)": lambda: mk().add(as_, alpha=-2),
+                        "add_(alpha=3)": lambda: mk().add_(as_, alpha=3), "alg +": lambda: mka() + as_, "alg add_": lambda: mka().add_(as_),
+                        "matrix": lambda: mk().matrix(), "alg matrix": lambda: mka().matrix(), "Log": lambda: mk().Log(), "Exp": lambda: mka().Exp(),
+                        "Inv": lambda: mk().Inv(), "alg Inv": lambda: mka().Inv(), "Mul": lambda: mk() @ mk(), "Act3": lambda: mk().Act(p3),
+                        "Act4": lambda: mk().Act(p4), "X*p3": lambda: mk() * p3, "rotation": lambda: mk().rotation(),
+                        "translation": lambda: mk().translation(), "scale": lambda: mk().scale(), "euler": lambda: mk().euler(),
+                        "identity_": lambda: mk().identity_(), "tensor": lambda: mk().tensor(), "Adj bwd": lambda: bw(mk(True).Adj(mka(True))),
+                        "AdjT bwd": lambda: bw(mk(True).AdjT(mka(True))), "Jinvp bwd": lambda: bw(mk(True).Jinvp(mka(True))),
+                        "Retr bwd": lambda: bw(mk(True).Retr(mka(True))), "Log bwd": lambda: bw(mk(True).Log()), "Exp bwd": lambda: bw(mka(True).Exp()),
+                        "Inv bwd": lambda: bw(mk(True).Inv()), "Mul bwd": lambda: bw(mk(True) @ mk(True)), "Act3 bwd": lambda: bw(mk(True).Act(p3)),
+                        "Act4 bwd": lambda: bw(mk(True).Act(p4)), "matrix bwd": lambda: bw(mk(True).matrix()),
+                        "alg matrix bwd": lambda: bw(mka(True).matrix()), "add bwd": lambda: bw(mk(True) + as_),
+                    }
+                    if name == "SO3":
+                        o["Jr"] = lambda: mk().Jr()
+                        o["alg Jr"] = lambda: mka().Jr()
+                        o["Jr bwd"] = lambda: bw(mk(True).Jr())
+                    return o
+                return ops
+            ops_by[(name, dtype)] = others()
+    first = {}
+    try:
+        for key, rd in reads_all.items():
+            first[key] = rd()
+    except Exception as ex:
+        ctx.fail({"stream": "poison"}, f"raises: first evaluation of the C05 operations raised {type(ex).__name__}: {str(ex)[:160]}")
+        return
+
+    def recheck(dtypes, what, case):
+        for (nm, dt_), rd in reads_all.items():
+            if dt_ not in dtypes:
+                continue
+            try:
+                now = rd()
+            except Exception as ex:
+                ctx.fail(case | {"read_type": nm, "read_dtype": dt_},
+                         f"poison: after {what} the C05 operations on a batch of 3 {nm} items ({dt_}) raise {type(ex).__name__}: {str(ex)[:120]}")
+                return False
+            for k2, v in now.items():
+                if not _same(v, first[(nm, dt_)][k2]):
+                    d = float((v.double() - first[(nm, dt_)][k2].double()).abs().max()) if v.shape == first[(nm, dt_)][k2].shape else float("nan")
+                    ctx.fail(case | {"read": k2, "read_type": nm, "read_dtype": dt_},
+                             f"poison: after {what}, {k2} on the SAME batch of {nm} items ({dt_}) differs from its first evaluation in this process "
+                             f"(max diff {d:.3e}) — state shared across calls")
+                    return False
+        return True
+    for (name, dtype), ops in ops_by.items():
+        tabs = {sh: ops(sh) for sh in ((), (1,), (1, 1))}
+        labels = list(tabs[()].keys())
+        step = len(labels) if ctx.quick else 2
+        for c0 in range(0, len(labels), step):
+            chunk = labels[c0:c0 + step]
+            case = {"stream": "poison", "type": name, "dtype": dtype, "other_ops": chunk}
+            for lab in chunk:
+                ctx.note_case(("poison", name, dtype, lab), True)
+                ctx.count("poison.other-ops")
+                for sh in ((), (1,), (1, 1)):
+                    try:
+                        tabs[sh][lab]()
+                    except Exception:
+                        ctx.count("poison.other-op-raised")     # e.g. translation() of SO3: not every accessor exists for every type
+            if not recheck((dtype,), f"single-item calls (lshapes (), (1,), (1,1)) of {chunk} on {name} ({dtype})", case):
+                return
+    recheck(("float64", "float32"), "the whole history (both dtypes)", {"stream": "poison", "other_op": "all"})
+
+
+# ----------------------------------------------------------------------------- class 30: every dtype the entry points accept
+
+NARROW = {"float16": (torch.float16, 2.0 ** -10), "bfloat16": (torch.bfloat16, 2.0 ** -7), "complex64": (torch.complex64, 2.0 ** -23)}
+
+
+def moderate_operands(name, n, seed):
+    """well-conditioned float64 operands (angles 0.5..2.5, |t| <= 2, scale e^±0.5, tangent blocks O(1)): meaningful in 8-bit-mantissa dtypes"""
+    g = torch.Generator().manual_seed(seed)
+    ax = torch.randn(n, 3, generator=g, dtype=torch.float64)
+    ax = ax / ax.norm(dim=-1, keepdim=True)
+    ang = 0.5 + 2.0 * torch.rand(n, 1, generator=g, dtype=torch.float64)
+    q = torch.cat([ax * torch.sin(ang / 2), torch.cos(ang / 2)], -1)
+    q[1::2] = -q[1::2]
+    t = 2 * (torch.rand(n, 3, generator=g, dtype=torch.float64) - 0.5) * 2
+    sc = torch.exp(torch.rand(n, 1, generator=g, dtype=torch.float64) - 0.5)
+    X = {"SO3": q, "SE3": torch.cat([t, q], -1), "RxSO3": torch.cat([q, sc], -1), "Sim3": torch.cat([t, q, sc], -1)}[name]
+    phi = torch.randn(n, 3, generator=g, dtype=torch.float64)
+    phi = phi / phi.norm(dim=-1, keepdim=True) * (0.3 + 1.2 * torch.rand(n, 1, generator=g, dtype=torch.float64))
+    tau = 2 * (torch.rand(n, 3, generator=g, dtype=torch.float64) - 0.5)
+    sg = torch.rand(n, 1, generator=g, dtype=torch.float64) - 0.5
+    a = {"SO3": phi, "SE3": torch.cat([tau, phi], -1), "RxSO3": torch.cat([phi, sg], -1), "Sim3": torch.cat([tau, phi, sg], -1)}[name]
+    return X, a
+
+
+def run_dtypes(ctx: Ctx):
+    """float16 / bfloat16 (all operations) and complex64 with zero imaginary part (where the unchanged code accepts it): the result must have
+    the operand dtype, the documented ltype and shape, and the VALUE of the float64 call on the same (exactly converted) operands within
+    the dtype's tolerance; algebra `+` with `other` of every torch dtype follows torch's type promotion exactly.  Deterministic."""
+    P = U.pp()
+    n = 6
+    for name in U.GROUPS:
+        algT = getattr(P, U.ALG[name] + "_type")
+        X64, a64 = moderate_operands(name, n, 9100)
+        ops = {"Adj": (lambda X, aL: X.Adj(aL), K_ALG, False), "AdjT": (lambda X, aL: X.AdjT(aL.tensor()), K_ALG, False),
+               "Jinvp": (lambda X, aL: X.Jinvp(aL), None, False), "Retr": (lambda X, aL: X.Retr(aL), K_ALG, True),
+               "X+a": (lambda X, aL: X + aL.tensor(), K_ALG, True), "X.add(a,alpha=-0.5)": (lambda X, aL: X.add(aL.tensor(), alpha=-0.5), K_ALG, True),
+               "add_": (lambda X, aL: X.clone().add_(aL.tensor()), K_ALG, True), "aL+a": (lambda X, aL: aL + aL.tensor().flip(0), K_ALG, False)}
+        if name == "SO3":
+            ops["X.Jr()"] = (lambda X, aL: X.Jr(), None, False)
+            ops["aL.Jr()"] = (lambda X, aL: aL.Jr(), None, False)
+        for dn, (dt, e) in NARROW.items():
+            Xd, ad = X64.to(dt), a64.to(dt)
+            Xr = (Xd.real if dt.is_complex else Xd).to(torch.float64)
+            ar = (ad.real if dt.is_complex else ad).to(torch.float64)
+            for lab, (f, kk, grp) in ops.items():
+                case = {"stream": "dtypes", "type": name, "dtype": dn, "op": lab, "X": Xr.tolist(), "a": ar.tolist()}
+                ctx.note_case(("dtypes", name, dn, lab), True)
+                ctx.count(f"dtypes.{dn}")
+                ref = f(P.LieTensor(Xr.clone(), ltype=U.ltype(name)), P.LieTensor(ar.clone(), ltype=algT))
+                try:
+                    z = f(P.LieTensor(Xd.clone(), ltype=U.ltype(name)), P.LieTensor(ad.clone(), ltype=algT))
+                except Exception as ex:
+                    if dt.is_complex:
+                        ctx.count(f"dtypes.observation.complex64-raises.{lab}")      # clean tree: Jinvp / Jr use torch.sign
+                    elif name == "Sim3" and lab == "Jinvp":
+                        ctx.count(f"dtypes.observation.{dn}-raises.Sim3.Jinvp")      # clean tree: Sim3_Log calls torch.linalg.inv (no half kernels)
+                    else:
+                        ctx.fail(case, f"dtype: {lab} on {name} operands of dtype {dn} raised {type(ex).__name__}: {str(ex)[:120]}")
+                    continue
+                zt, rt = _val(z), _val(ref)
+                if zt.dtype != dt or zt.shape != rt.shape or getattr(z, "ltype", None) != getattr(ref, "ltype", None):
+                    ctx.fail(case, f"dtype: {lab} on {name} operands of dtype {dn} returned dtype {zt.dtype}, shape {tuple(zt.shape)}, "
+                                   f"ltype {getattr(z, 'ltype', None)} (expected {dt}, {tuple(rt.shape)}, {getattr(ref, 'ltype', None)})")
+                    continue
+                if dt.is_complex:
+                    if float(zt.imag.abs().max()) != 0.0:
+                        ctx.fail(case, f"dtype: {lab} on real-valued complex64 {name} operands returned a non-zero imaginary part")
+                        continue
+                    zt = zt.real
+                zt = zt.to(torch.float64)
+                tol = 16 * e      # moderate operands: the observed error on the unchanged code is <= 1.5 eps of the dtype
+                zf, rf = zt.reshape(n, -1), rt.reshape(n, -1)
+                for i in range(n):
+                    if grp:        # group-valued: quaternion block to its own scale, translation / scale block to theirs
+                        bl = [sl for sl in (U.QSL[name], U.TSL[name], U.SIDX[name]) if sl is not None]
+                    elif lab in ("X.Jr()", "aL.Jr()"):
+                        bl = [slice(0, 9)]
+                    else:
+                        bl = [sl for sl in (U.PHISL[name], U.TAUSL[name], U.SIGIDX[name]) if sl is not None]
+                    for sl in bl:
+                        sl = slice(sl, sl + 1) if isinstance(sl, int) else sl
+                        d = float((zf[i][sl] - rf[i][sl]).abs().max())
+                        sc_ = max(float(rf[i].abs().max()), 1.0)
+                        ctx.hist[f"dtypes.maxratio.{dn}"] = max(ctx.hist.get(f"dtypes.maxratio.{dn}", 0), round(d / (tol * sc_), 3))
+                        if not d <= tol * sc_:
+                            ctx.fail(case | {"item": i}, f"dtype: {lab} on {name} in {dn}: item {i} differs from the float64 value on the same operands by "
+                                                         f"{d:.3e} > {tol * sc_:.3e}")
+                            break
+                    else:
+                        continue
+                    break
+        # algebra + with `other` of every dtype: torch's promotion, exactly
+        for xd in (torch.float64, torch.float32, torch.float16):
+            x = P.LieTensor(a64.to(xd), ltype=algT)
+            for od in (torch.float64, torch.float32, torch.float16, torch.bfloat16, torch.int64, torch.int32, torch.int16, torch.int8, torch.uint8, torch.bool):
+                o = (a64.flip(0) * 3).to(od)
+                # the documented semantics: `x + alpha·other` evaluated by torch (its promotion), stored in x's dtype (add = clone + add_)
+                for lab, f, g2 in (("aL+o", lambda x, o: x + o, lambda xt, o: (xt + o).to(xt.dtype)),
+                                   ("aL.add(o,alpha=2)", lambda x, o: x.add(o, alpha=2), lambda xt, o: (xt + 2 * o).to(xt.dtype)),
+                                   ("aL.add_(o)", lambda x, o: x.clone().add_(o), lambda xt, o: (xt + o).to(xt.dtype))):
+                    case = {"stream": "dtypes", "type": name, "dtype": str(xd)[6:], "other_dtype": str(od)[6:], "op": lab}
+                    ctx.note_case(("dtypes-alg", name, str(xd), str(od), lab), True)
+                    ctx.count("dtypes.algebra-promotion")
+                    try:
+                        want = g2(x.tensor().clone(), o)
+                    except Exception:
+                        continue
+                    try:
+                        z = f(x, o)
+                    except Exception as ex:
+                        ctx.fail(case, f"dtype: algebra {lab} ({name}, {xd}) with other of dtype {od} raised {type(ex).__name__}: {str(ex)[:100]}")
+                        continue
+                    zt = _val(z)
+                    if zt.dtype != want.dtype or not torch.equal(zt, want) or getattr(z, "ltype", None) != algT:
+                        ctx.fail(case, f"dtype: algebra {lab} ({name}, {xd}) with other of dtype {od} returned dtype {zt.dtype} / other values than "
+                                       f"`x + alpha*other` in x's dtype ({want.dtype})")
+
+
+# ----------------------------------------------------------------------------- class 36: hidden tolerances (allclose / isclose / clamp(min=eps) heuristics)
+
+def band_rows(name, dtype):
+    """operands in the band BETWEEN round-off and the usual 'helpful' tolerances (atol 1e-8, rtol 1e-5, clamp(min=eps), 1e-6, 1e-12):
+    nearly the identity in one block or in all blocks at once, nearly zero tangent blocks, nearly equal / nearly cancelling operands"""
+    e = teps(dtype)
+    lad = [1e-4, 1e-5, 1e-6, 3e-7, 1e-10, 1e-12] if dtype == "float64" else [1e-3, 1e-4, 1e-5, 3e-6]
+    gr, ar = [], []
+    for i, th in enumerate(lad):
+        for tm, ls in ((0.0, 0.0), (th, th), (1.0, -th), (lad[-1 - i], lad[(i + 2) % len(lad)])):
+            r = []
+            if name in ("SE3", "Sim3"):
+                r += [tm * c for c in DIRS[i % 4]]
+            r += quat_of(th, AX[(i + 1) % 4], neg=(i % 2 == 1))
+            if name in ("RxSO3", "Sim3"):
+                r.append(math.exp(ls))
+            gr.append((r, f"band th={th:g},t={tm:g},ls={ls:g}"))
+    for i, th in enumerate(lad):
+        for tm, sg in ((0.0, 0.0), (th, -th), (1.0, th), (lad[-1 - i], 0.3)):
+            r = []
+            if name in ("SE3", "Sim3"):
+                r += [tm * c for c in DIRS[(i + 1) % 4]]
+            r += [th * c for c in AX[i % 4]]
+            if name in ("RxSO3", "Sim3"):
+                r.append(sg)
+            ar.append((r, f"band th={th:g},tau={tm:g},sg={sg:g}"))
+    ar.append((corner_alg_rows(name, dtype)[5][0], "ordinary"))
+    gr.append((corner_group_rows(name, dtype)[7][0], "ordinary"))
+    return gr, ar
+
+
+def run_band(ctx: Ctx):
+    """band rows through the whole corpus machinery (192-bit model, single-item calls, laws, 50-digit adjoint oracle, mpmath Jinvp oracle)"""
+    pend = []
+    for name in U.GROUPS:
+        for dtype in ("float64", "float32"):
+            gr, ar = band_rows(name, dtype)
+            if ctx.quick:
+                gr, ar = (gr[::3] + gr[-1:], ar[1::3] + ar[-1:]) if dtype == "float64" else (gr[1::5] + gr[-1:], ar[::5] + ar[-1:])
+            corpus_block(ctx, pend, name, dtype, gr, ar, tag="band", grads=(None,))
+    flush(ctx, pend)
+
+
+def run_covariance(ctx: Ctx):
+    """exact scale covariance with powers of two (no rounding is involved, so the comparison is bit for bit):
+    (a) Adj, AdjT, Jinvp and algebra + are linear in the tangent operand: f(X, 2^k a) == 2^k f(X, a);
+    (b) SE3 / Sim3: scaling the translation of X and the tau block of a by 2^k scales the tau (or translation) block of the result by 2^k and
+        leaves the other blocks unchanged (Adj, AdjT, Jinvp, Retr, +).
+    Any absolute tolerance (`allclose(a, 0)`, `clamp(min=eps)`, `isclose`) inside the code breaks one of the k.  Deterministic."""
+    P = U.pp()
+    for name in U.GROUPS:
+        algT = getattr(P, U.ALG[name] + "_type")
+        for dtype in ("float64", "float32"):
+            D = U.dt(dtype)
+            n = 48
+            Xt, at = big_operands(name, (n,), (n,), D, 8800)
+            Xm, am = moderate_operands(name, 16, 8801)
+            gr, ar = band_rows(name, dtype)
+            m = min(len(gr), len(ar))
+            Xb = U.to_dtype_exact([r[0] for r in gr[:m]], dtype)[1].to(D)
+            ab = U.to_dtype_exact([r[0] for r in ar[:m]], dtype)[1].to(D)
+            Xt, at = torch.cat([Xt, Xm.to(D), Xb], 0), torch.cat([at, am.to(D), ab], 0)
+            mkX = lambda T_: P.LieTensor(T_.clone(), ltype=U.ltype(name))
+            mka = lambda T_: P.LieTensor(T_.clone(), ltype=algT)
+            lin = {"Adj": lambda X, a: X.Adj(a).tensor(), "AdjT": lambda X, a: X.AdjT(a).tensor(), "Jinvp": lambda X, a: X.Jinvp(a).tensor(),
+                   "aL+a": lambda X, a: (a + a.tensor().flip(0)).tensor(), "X.Adj(plain a)": lambda X, a: X.Adj(a.tensor()).tensor()}
+            tr = dict(lin, **{"Retr": lambda X, a: X.Retr(a).tensor(), "X+a": lambda X, a: (X + a.tensor()).tensor(),
+                              "X.add(a,alpha=-0.5)": lambda X, a: X.add(a.tensor(), alpha=-0.5).tensor()})
+            tr.pop("aL+a")
+            ks = (-60, -30, -10, 10, 30, 60) if dtype == "float64" else (-30, -10, 10, 30)
+            for k in ks:
+                c = 2.0 ** k
+                for lab, f in lin.items():
+                    case = {"stream": "covariance", "type": name, "dtype": dtype, "op": lab, "k": k, "kind": "linear in a"}
+                    ctx.note_case(("cov", name, dtype, lab, k, "lin"), True)
+                    ctx.count("covariance.linear")
+                    try:
+                        z1, z2 = f(mkX(Xt), mka(at * c)), f(mkX(Xt), mka(at)) * c
+                    except Exception as ex:
+                        ctx.fail(case, f"raises: {lab} with the tangent operand scaled by 2^{k} raised {type(ex).__name__}: {str(ex)[:120]} ({name}, {dtype})")
+                        continue
+                    ok = torch.isfinite(z2).all(-1) & torch.isfinite(z1).all(-1)
+                    bad = ((z1 != z2).any(-1) & ok).nonzero().flatten()
+                    if len(bad):
+                        i = int(bad[0])
+                        ctx.fail(case | {"item": i, "X": Xt[i].double().tolist(), "a": at[i].double().tolist()},
+                                 f"covariance: {lab}(X, 2^{k}·a) != 2^{k}·{lab}(X, a) at item {i} ({name}, {dtype}): {z1[i].double().tolist()} vs "
+                                 f"{z2[i].double().tolist()} — the operation is linear in a, powers of two commute with rounding")
+                if U.TSL[name] is None:
+                    continue
+                Xs, as_ = Xt.clone(), at.clone()
+                Xs[:, U.TSL[name]] *= c
+                as_[:, U.TAUSL[name]] *= c
+                for lab, f in tr.items():
+                    grp = lab in ("Retr", "X+a", "X.add(a,alpha=-0.5)")
+                    case = {"stream": "covariance", "type": name, "dtype": dtype, "op": lab, "k": k, "kind": "translation scale"}
+                    ctx.note_case(("cov", name, dtype, lab, k, "tr"), True)
+                    ctx.count("covariance.translation")
+                    try:
+                        z1, z2 = f(mkX(Xs), mka(as_)), f(mkX(Xt), mka(at)).clone()
+                    except Exception as ex:
+                        ctx.fail(case, f"raises: {lab} with translations scaled by 2^{k} raised {type(ex).__name__}: {str(ex)[:120]} ({name}, {dtype})")
+                        continue
+                    z2[:, U.TSL[name] if grp else U.TAUSL[name]] *= c
+                    ok = torch.isfinite(z2).all(-1) & torch.isfinite(z1).all(-1)
+                    bad = ((z1 != z2).any(-1) & ok).nonzero().flatten()
+                    if len(bad):
+                        i = int(bad[0])
+                        ctx.fail(case | {"item": i, "X": Xt[i].double().tolist(), "a": at[i].double().tolist()},
+                                 f"covariance: {lab} with the translation of X and the tau block of a scaled by 2^{k} is not the result with its "
+                                 f"translation block scaled by 2^{k} at item {i} ({name}, {dtype}): {z1[i].double().tolist()} vs {z2[i].double().tolist()}")
+
+
 # ----------------------------------------------------------------------------- entry points
 
 def run(ctx: Ctx):
@@ -2263,6 +2684,7 @@ def run(ctx: Ctx):
             r["Jr"] = lambda o: o.Jr()
         return r
     torch.set_num_threads(1)     # single intra-op thread: several threads are ~30x slower on small ops when the box is busy
+    poison_probe(ctx)
     mode_order_probe(ctx)
     _UL.persistent_probe(ctx, _reads)
     history_probe(ctx)
@@ -2272,6 +2694,9 @@ def run(ctx: Ctx):
     run_corpus(ctx)
     run_dispatch(ctx, ctx.pick(120, 2000))
     run_algshort(ctx)
+    run_dtypes(ctx)
+    run_covariance(ctx)
+    run_band(ctx)
     run_ops(ctx, ctx.pick(450, 7000))
     run_laws(ctx, ctx.pick(160, 5000))
     run_jinvp_oracle(ctx, ctx.pick(90, 2500))
@@ -2351,8 +2776,9 @@ def replay(ctx: Ctx, case) -> bool:
         ok = jr_oracle_case(ctx, c)
     elif st == "adj":
         ok = adj_oracle_case(ctx, c)
-    elif st in ("history", "views", "persistent", "modes", "large"):   # deterministic streams: re-run the whole (seed independent) stream
-        {"history": history_probe, "views": run_views, "modes": run_modes, "large": run_large}.get(st, lambda cx: run(cx))(ctx)
+    elif st in ("history", "views", "persistent", "modes", "large", "poison", "dtypes", "covariance"):   # deterministic streams: re-run the whole (seed independent) stream
+        {"history": history_probe, "views": run_views, "modes": run_modes, "large": run_large, "poison": poison_probe, "dtypes": run_dtypes,
+         "covariance": run_covariance}.get(st, lambda cx: run(cx))(ctx)
         ok = len(ctx.failures) == n0
     else:
         pend = prepare(ctx, c)
